@@ -25,6 +25,13 @@ ANSI_ESCAPE_PATTERN = re.compile(
     flags=re.VERBOSE,
 )
 
+# the beginning of an escape sequence (as matched by ANSI_ESCAPE_PATTERN) that ends where the buffer
+# ends, i.e. a sequence that has been cut by the end of a read
+ANSI_ESCAPE_INCOMPLETE_PATTERN = re.compile(
+    pattern=rb"\x1B(\s)?((\](\d[^\x07\n]*)?)|(\[[^@-~\n]*))?\Z"
+)
+ANSI_ESCAPE_INCOMPLETE_MAX_LENGTH = 256
+
 
 @dataclass()
 class BaseChannelArgs:
@@ -147,6 +154,9 @@ class BaseChannel:
         )
 
         self.channel_log: Optional[BinaryIO] = None
+
+        # the beginning of an escape sequence that was cut by the end of the previous read
+        self._ansi_held = b""
 
     @property
     def auth_telnet_login_pattern(self) -> Pattern[bytes]:
@@ -286,6 +296,8 @@ class BaseChannel:
             N/A
 
         """
+        self._ansi_held = b""
+
         if self._base_channel_args.channel_log:
             if isinstance(self._base_channel_args.channel_log, BytesIO):
                 self.channel_log = self._base_channel_args.channel_log
@@ -613,6 +625,37 @@ class BaseChannel:
 
         """
         buf = re.sub(pattern=ANSI_ESCAPE_PATTERN, repl=b"", string=buf)
+        return buf
+
+    def _strip_ansi_read(self, buf: bytes) -> bytes:
+        """
+        Strip ansi characters from the output of one read
+
+        A read can end in the middle of an escape sequence. Such a beginning of a sequence is held
+        back and put in front of the output of the next read, so that the sequence is stripped once
+        it is complete rather than ending up in the output in two pieces.
+
+        Args:
+            buf: bytes of the current read
+
+        Returns:
+            bytes: bytes output read from channel with ansi characters removed
+
+        Raises:
+            N/A
+
+        """
+        buf = self._ansi_held + buf
+        self._ansi_held = b""
+
+        if b"\x1b" in buf:
+            buf = self._strip_ansi(buf=buf)
+
+            partial = re.search(pattern=ANSI_ESCAPE_INCOMPLETE_PATTERN, string=buf)
+            if partial and len(buf) - partial.start() <= ANSI_ESCAPE_INCOMPLETE_MAX_LENGTH:
+                self._ansi_held = buf[partial.start() :]
+                buf = buf[: partial.start()]
+
         return buf
 
     @staticmethod
